@@ -32,10 +32,34 @@ Proof. exact never_merged. Qed.
    (newline-terminated) lines, the stream's lines are the datagrams' lines in
    arrival order, so each sender's lines come out in that sender's order *)
 Theorem C17_dgram_whole_lines : forall sz arrivals,
-  1 <= sz -> Forall (fun t => terminated (snd t)) arrivals ->
+  1 <= sz -> fits sz arrivals -> Forall (fun t => terminated (snd t)) arrivals ->
   dgram_lines sz arrivals = map snd (dgram_tagged arrivals) /\
   forall i, project i (dgram_tagged arrivals) = concat (map frame (project i arrivals)).
 Proof. exact dgram_whole_lines. Qed.
+
+(* [dgram_lines] is the concrete LineReader fed one datagram per Read, the
+   kernel discarding what does not fit the space offered.  Every such Read is
+   offered exactly the configured size (131072 in dgramstream.go), so what the
+   stream frames is every datagram cut to that size ... *)
+Theorem C17_dgram_reads_offered_size : forall sz dgs, 1 <= sz ->
+  Forall (fun o => o_space o = sz) (fst (run_dg (new_lr sz) dgs)).
+Proof. exact dg_reads_offered_size. Qed.
+
+Theorem C17_dgram_lines_cut : forall sz arrivals, 1 <= sz ->
+  dgram_lines sz arrivals = frame (concat (map (fun t => firstn sz (snd t)) arrivals)).
+Proof. exact dgram_lines_is_spec. Qed.
+
+(* ... hence the hypothesis [fits] above is needed: a datagram larger than the
+   read buffer (possible on unixgram sockets; UDP is limited to 65507 bytes)
+   loses its tail, and the line that was cut is glued to the next datagram.
+   Known finding `dgram-larger-than-read-buffer-cut/unixgram`. *)
+Theorem C17_dgram_oversize_cut_refuted :
+  exists sz arrivals, 1 <= sz /\ Forall (fun t => terminated (snd t)) arrivals /\
+    dgram_lines sz arrivals <> map snd (dgram_tagged arrivals).
+Proof.
+  exists 4, [(0, [97; 10; 98; 98; 98; 10]%N); (0, [99; 10]%N)].
+  split; [lia|]. split; [repeat constructor; right; reflexivity|]. vm_compute. discriminate.
+Qed.
 
 (* a zero-length datagram, wherever it arrives, delivers nothing and changes
    nothing of what the stream delivers (in particular it does not end it) *)
@@ -102,6 +126,9 @@ Qed.
 Print Assumptions C17_per_connection.
 Print Assumptions C17_never_merged.
 Print Assumptions C17_dgram_whole_lines.
+Print Assumptions C17_dgram_reads_offered_size.
+Print Assumptions C17_dgram_lines_cut.
+Print Assumptions C17_dgram_oversize_cut_refuted.
 Print Assumptions C17_empty_datagram_harmless.
 Print Assumptions C17_ends_after_flush.
 Print Assumptions C17_nothing_after_close.
